@@ -182,7 +182,7 @@ def chain_numbers(spec):
         if e['rel']['type'] == 'worm':
             wg = prev if prev['type'] == 'wormgear' else e
             m, _ = REL.self_locking_margin(qsi(wg['pa']), qsi(wg['helix']), e['rel']['f'])
-            near = near or abs(m) <= 1e-12
+            near = near or (abs(m) <= 1e-12 and not e['rel'].get('f_is_threshold'))
         prev = e
     J = qsi(spec['motor']['J'])
     for e, r in zip(spec['chain'], rs):
